@@ -1,4 +1,5 @@
 import FtdcVerif.Model.Events
+import FtdcVerif.Lemmas.CodeTie
 /-!
 # C14 — event collectors persist running totals without losing any event's contribution
 
@@ -122,5 +123,35 @@ theorem opts_is_not_ops : ([111, 112, 116, 115] : Bytes) ≠ k_ops := by decide
 /-! non-vacuity -/
 example : basicRun none [some { n := 1 }, none, some { n := 2 }, some { n := 3, id := 7 }] =
     [{ n := 1 }, { n := 3, id := 1 }, { n := 6, id := 7 }] := by decide
+
+/-! ### The Go text itself (regenerated)
+
+`Ftdc.Gen.Events.Add` (Gen/Code.lean) is translated from `Performance.Add` in events/performance.go on every
+run of this check.  Run on the integers a model value stands for and reduced modulo 2^64 (Go's `int64`
+wrap-around), it is the model's `Perf.add`, and the event handed in gets back the id it was given. -/
+theorem go_performance_add_is_model (p e : Perf) :
+    CodeTie.absP (Gen.Events.Add (CodeTie.concP p) (CodeTie.concP e)).1 = Perf.add p e ∧
+    CodeTie.absP (Gen.Events.Add (CodeTie.concP p) (CodeTie.concP e)).2 = { e with id := nextId p.id e.id } :=
+  CodeTie.Add_tie p e
+
+/-- what a Go `Performance` value holds after an ideal-integer computation: every field reduced to `int64` -/
+def wrapP (g : Gen.Events.Performance) : Gen.Events.Performance := CodeTie.concP (CodeTie.absP g)
+
+theorem abs_conc (p : Perf) : CodeTie.absP (CodeTie.concP p) = p := by
+  simp [CodeTie.absP, CodeTie.concP, BitVec.ofInt_toInt]
+
+/-- the running totals computed by folding the translated Go `Add` over any list of events (each step's
+result stored back into `int64` fields) are the specification's -/
+theorem go_running_totals (p : Perf) (es : List Perf) :
+    es.foldl (fun acc e => wrapP (Gen.Events.Add acc (CodeTie.concP e)).1) (CodeTie.concP p) =
+      CodeTie.concP (totalsFrom p es) := by
+  induction es generalizing p with
+  | nil => rfl
+  | cons e es ih =>
+    simp only [List.foldl_cons, totalsFrom]
+    have h1 : wrapP (Gen.Events.Add (CodeTie.concP p) (CodeTie.concP e)).1 = CodeTie.concP (p.add e) := by
+      unfold wrapP; rw [(CodeTie.Add_tie p e).1]
+    rw [h1]
+    exact ih (p.add e)
 
 end Ftdc.Props.C14
